@@ -199,3 +199,15 @@ def module_init():
 """)
 c.params().returns("none")
 c.lemma_tags = {"C13", "C18", "C12", "C05", "C01"}
+
+# ---- the range fact that pyvc/spec_ed.py attaches to every ed_xrecover(y) term is a consequence of its definition -----------
+# (spec.ed_xrecover is the defined symbol `ed_xrecover(y) := ed_xrecover_def(y)`; its facts must follow from the definition alone,
+#  independently of the code: proved here for all y from the definition term)
+c = REG.ghost_function("lemma.ed_xrecover_def_range", "ed25519_basic", """
+def xrecover_def_range(y):
+    r = spec.ed_xrecover_def(y)
+    assert 0 <= r and r < Q and r % 2 == 0, "even-root-in-range"
+    return None
+""")
+c.params(y="int").returns("none")
+c.lemma_tags = {"C05", "C14", "C15", "C03", "C13"}
